@@ -1,5 +1,5 @@
 """C03 — codec is memory-safe and total on arbitrary input."""
-from ..facts import Program, AnalysisBroken
+from ..facts import Program, AnalysisBroken, WITNESS_FIELDS
 from .. import q, extent
 
 CLAIM = {
@@ -20,7 +20,7 @@ EXPLANATION = (
     "R03.2 fixed-width extractor: memcpy length + terminator ≤ destination under the caller's dominating guard on the decoded length; "
     "R03.3 each fixed-size stack array handed to Message::encode(char**): the encoder chain has no capacity parameter; R03.4 loop "
     "progress of MessageBase::decode's field loop and of both loops of decode_group; R03.5 extract_trailer reads `size-7` without a "
-    "size guard; fast_atoi with a non-NUL terminator on string data. R03.6 Message::factory refuses the MsgType texts \"header\" and \"trailer\" (table entries that build a MessageBase) before creating the object. NOT decided: other UB, generated code, exception types.")
+    "size guard; fast_atoi with a non-NUL terminator on string data. R03.6 Message::factory refuses the MsgType texts \"header\" and \"trailer\" (table entries that build a MessageBase) before creating the object. R03.7 Field<int|unsigned|double,N>::print writes through its argument only via the frozen set of length-bounded renderers. NOT decided: other UB, generated code, exception types.")
 
 MB = 'FIX8::MessageBase::'
 
@@ -165,6 +165,32 @@ def run(ctx):
                   'fast_atoi(…, terminator %r) is preceded by a search proving the terminator occurs after the start' % chr(term),
                   'fast_atoi scans string data for terminator 0x%02x with no proof that it occurs: a message ending inside the MsgSeqNum value is '
                   'read past its end' % term)
+    # ---------------- R03.7 numeric fields are rendered by renderers with a fixed upper bound on their output (the encoder has no capacity parameter,
+    # R03.3: what a numeric field can write must at least not depend on its value): frozen table of bounded renderers
+    BOUNDED = {'FIX8::modp_dtoa': 'same', 'modp_dtoa': 'clamps the precision to 9 and switches to %e above 2^31', 'FIX8::itoa': 'at most 20 digits and a sign',
+               'FIX8::format0': 'writes exactly `width` characters', 'FIX8::date_time_format': 'fixed layouts of 6..21 characters'}
+    progw = Program([WITNESS_FIELDS])
+    ctx.units.add('witness/inst_fields.cpp')
+    n_pr = 0
+    seenT = set()
+    for fpr in progw.all_functions():
+        if fpr.qp != 'FIX8::Field::print' or not fpr.sig.startswith('size_t (char *)') or not fpr.rec:
+            continue
+        T = fpr.rec[len('FIX8::Field<'):fpr.rec.rfind(',')]
+        if T in seenT or T not in ('int', 'unsigned int', 'double', 'float'):
+            continue
+        seenT.add(T)
+        ctx.saw(fpr)
+        n_pr += 1
+        writers = sorted({c.callee_qp for c in fpr.calls() if c.callee_qp and c.args and
+                          any(q.refers_to_decl(a, fpr.param_ids[0]) for a in c.args) })
+        bad = [w for w in writers if w not in BOUNDED]
+        ctx.check(writers and not bad, 'R03.7', 'FIX8::Field<%s>::print#bounded-renderer' % T, fpr.loc,
+                  'the value is rendered into the caller\'s buffer only by %s' % ', '.join(writers),
+                  'Field<%s,N>::print hands the encode buffer to `%s`, whose output length depends on the value (and on a precision taken from the wire): a decoded float with '
+                  '10+ fraction digits and a large magnitude re-encodes to hundreds of bytes per field, past the end of the %s-byte buffers of R03.3'
+                  % (T, bad[0] if bad else '?', 'FIX8_MAX_MSG_LENGTH+32'))
+    ctx.need(n_pr >= 2, 'fewer than 2 numeric Field<T,N>::print(char*) instantiations found (%d)' % n_pr)
     # ---------------- R03.6 the message table also holds the two pseudo messages "header" and "trailer" (F8MetaCntx builds every message's header and
     # trailer from them); their factories return a MessageBase, not a Message, so a MsgType text naming one of them must be refused before the
     # object is used as a Message
